@@ -453,6 +453,7 @@ impl Prop for C07 {
         let mut scn = random_history("C07", coin, n, false, rng);
         let small = scn.chain.len() <= 8;
         prefix_runs(&mut scn, &["unspentcsvdump"], rng, small);
+        super::dress(&mut scn, rng, true);
         h.check(&mut scn)?;
         Ok(())
     }
@@ -551,6 +552,7 @@ impl Prop for C08 {
         let mut scn = random_history("C08", coin, n, true, rng);
         let small = scn.chain.len() <= 6;
         prefix_runs(&mut scn, &["unspentcsvdump", "balances"], rng, small);
+        super::dress(&mut scn, rng, true);
         h.check(&mut scn)?;
         Ok(())
     }
